@@ -9,6 +9,7 @@ import Model.C08.Core
 import Model.C08.Verify
 import Model.C08.Btclib
 import Model.C08.BtclibTap
+import Model.C08.BtclibVerify
 import Proofs.C08.Sim
 import Generated.Script
 open Btc Btc.Script
@@ -140,6 +141,22 @@ def handleC08 : List String → String
   | ["parse.roundtrip", hex] =>
     match fromHex? hex with
     | some b => let p := parse b; s!"ok {toHex (serializeOps p.1 ++ p.2)}"
+    | none => "bad-op"
+  | ["bt.pushonly", hex] =>
+    match fromHex? hex with
+    | some b => if Btclib.validatePushOnly b then "ok True" else "ok False"
+    | none => "bad-op"
+  | ["core.pushonly", hex] =>
+    match fromHex? hex with
+    | some b => if Core.isPushOnly b then "ok True" else "ok False"
+    | none => "bad-op"
+  | ["bt.annex", stack] =>
+    match parseHexList stack with
+    | some st => let r := Btclib.taprootGetAnnex st; s!"ok {toHex r.1}|{hexList r.2}"
+    | none => "bad-op"
+  | ["core.annex", stack] =>
+    match parseHexList stack with
+    | some st => s!"ok {hexList (Core.stripAnnex st.reverse).reverse}"
     | none => "bad-op"
   | ["fad", script, target] =>
     match fromHex? script, fromHex? target with
